@@ -75,6 +75,7 @@ def instances(tier):
             out.append(dict(id="%s-%s-residual" % (cls.__name__, tag), cls=cls.__name__, shape=list(sh), mode="residual", budget=b))
             out.append(dict(id="%s-%s-accept" % (cls.__name__, tag), cls=cls.__name__, shape=list(sh), mode="accept", budget=b))
         out.append(dict(id="%s-1-allfail" % cls.__name__, cls=cls.__name__, shape=[1], mode="allfail", budget=b))
+        out.append(dict(id="%s-1-accept-anyctrl" % cls.__name__, cls=cls.__name__, shape=[1], mode="accept", ctrl="free", budget=b))
     return out
 
 
@@ -336,7 +337,12 @@ def scenario(c, inst):
         return
     rhs = FreshRhsWithJac(c, shape)
     log = []
-    integ.update_timestep = ctrl_stub(c, integ, fixed=1.0)
+    if inst.get("ctrl") == "free":
+        # the controller proposes an arbitrary next step (also a LONGER one, as the real controller of the non-adaptive implicit
+        # classes does) and never asks for a retry itself: only the stage solver's verdict can force one
+        integ.update_timestep = ctrl_stub(c, integ, max_redo=0)
+    else:
+        integ.update_timestep = ctrl_stub(c, integ, fixed=1.0)
     succ = "false" if mode == "allfail" else "fork"
     with patched(opt, "nonlinear_roots", verdict_root_stub(c, success=succ, prec="zero" if mode == "allfail" else "sym", log=log,
                                                            max_fail=inst.get("max_fail", 2))):
